@@ -4,6 +4,7 @@
 -/
 import AmVerif.Model.Machine
 import AmVerif.Model.RpcCodec
+import AmVerif.Model.Time
 namespace Am
 
 def parseList (s : String) : S :=
@@ -150,8 +151,49 @@ def stepCodec (cs : CodecState) (toks : List String) : Option (CodecState × Str
       ({ cs with mirror := { time := s.time, q := s.q, m := s.m } }, "ok")
   | _ => none
 
+def parseOptIdx (s : String) : Option Nat := if s == "-1" then none else s.toNat?
+
+def parseOptList (s : String) : List (Option Nat) :=
+  if s == "" || s == "-" then [] else (s.splitOn ",").map parseOptIdx
+
+def parseLists (s : String) : List S :=
+  if s == "" || s == "none" then [] else (s.splitOn ";").map parseList
+
+/-- helper algebra commands (`hs …` for state lists, `ht …` for Time). -/
+def stepHelpers (toks : List String) : Option String :=
+  match toks with
+  | ["hs", "add", a, ls] => some (showList (sMethodAdd (parseList a) (parseLists ls)))
+  | ["hs", "add1", a, names] => some (showList (sMethodAdd1 (parseList a) (parseList names)))
+  | ["hs", "delete", a, ls] => some (showList (sRem (parseList a) (parseLists ls)))
+  | ["hs", "delete1", a, names] => some (showList (sRem (parseList a) [parseList names]))
+  | ["hs", "sadd", ls] => some (showList (sAdd (parseLists ls)))
+  | ["hs", "sub", a, b] => some (showList (diff (parseList a) (parseList b)))
+  | ["hs", "shared", a, b] => some (showList (shared (parseList a) (parseList b)))
+  | ["hs", "equal", a, b] => some (showB (equal (parseList a) (parseList b)))
+  | ["hs", "equalorder", a, b] => some (showB (equalOrder (parseList a) (parseList b)))
+  | ["hs", "unique", a] => some (showList (uniq (parseList a)))
+  | ["hs", "parse", n, a] => n.toNat?.map (fun n => showList (parseStates n (parseList a)))
+  | ["ht", "is1", t, i] => some (showB (tIs1 (parseList t) (parseOptIdx i)))
+  | ["ht", "not1", t, i] => some (showB (tNot1 (parseList t) (parseOptIdx i)))
+  | ["ht", "is", t, l] => some (showB (tIs (parseList t) (parseOptList l)))
+  | ["ht", "not", t, l] => some (showB (tNot (parseList t) (parseOptList l)))
+  | ["ht", "any1", t, l] => some (showB (tAny1 (parseList t) (parseOptList l)))
+  | ["ht", "active", t, l] => some (showList (tActive (parseList t) (if l == "nil" then none else some (parseList l))))
+  | ["ht", "filter", t, l] => some (showList (tFilter (parseList t) (parseList l)))
+  | ["ht", "sum", t, l] => some (toString (tSum (parseList t) (if l == "nil" then none else some (parseList l))))
+  | ["ht", "nonzero", t] => some (showList (tNonZero (parseList t)))
+  | ["ht", "diffsince", t, b] => some (showList (tDiffSince (parseList t) (parseList b)))
+  | ["ht", "equal", st, t, b] => some (showB (tEqual (st == "1") (parseList t) (parseList b)))
+  | ["ht", "after", oe, t, b] => some (showB (tAfter (oe == "1") (parseList t) (parseList b)))
+  | ["ht", "before", oe, t, b] => some (showB (tBefore (oe == "1") (parseList t) (parseList b)))
+  | ["ht", "tick", t, i] => i.toNat?.map (fun i => toString (tTick (parseList t) i))
+  | _ => none
+
 def stepLine (d : DState) (line : String) : DState × String :=
   let toks0 := (line.trimAscii.toString.splitOn " ").filter (· != "")
+  match stepHelpers toks0 with
+  | some out => (d, out)
+  | none =>
   match stepCodec d.codec toks0 with
   | some (cs, out) => ({ d with codec := cs }, out)
   | none =>
